@@ -173,7 +173,7 @@ def cache_transparency(protocol="file", level="1.5", rpc_w=2, rpc_r=3, producer=
         return {"reproduced": True, "error": f"{type(e).__name__}: {e}", "tb": traceback.format_exc()[-600:]}
     finally:
         shutil.rmtree(root, ignore_errors=True)
-        if protocol == "memory":
+        if protocol in ("memory", "rawio"):
             try:
                 fs.rm(base, recursive=True)
             except Exception:  # noqa: BLE001
@@ -232,6 +232,16 @@ def cache_states(local, remote, k_frac=0.5, use_cache=True, create_cache=False, 
                 diffs.append(f"pixels of {pol} differ from the synthesised samples")
         if sorted(os.listdir(base)) != listing_before:
             diffs.append("the product directory was modified")
+        # repair: when this call parsed the images with create_cache=True (no usable cache was served), a complete index of every
+        # image now lies in the user cache directory
+        if create_cache and not (use_cache and (local == 1 or (local == 0 and remote == 1))):
+            import json
+
+            for f, doc in docs.items():
+                try:
+                    json.loads(open(f).read())
+                except Exception as e:  # noqa: BLE001
+                    diffs.append(f"after a successful create_cache=True the local index {os.path.basename(f)} is still unusable ({type(e).__name__})")
         return {"reproduced": bool(diffs), "diffs": diffs[:6]}
     finally:
         shutil.rmtree(root, ignore_errors=True)
@@ -477,6 +487,35 @@ def _bits(a):
     return a.astype("<u2").view("<u2")
 
 
+def _register_rawio():
+    import io
+
+    import fsspec
+    from fsspec.implementations.memory import MemoryFileSystem
+
+    class RawIOFileSystem(MemoryFileSystem):
+        protocol = "rawio"
+        store = {}
+        pseudo_dirs = [""]
+
+        @classmethod
+        def _strip_protocol(cls, path):
+            if isinstance(path, str) and path.startswith("rawio://"):
+                path = "memory://" + path[len("rawio://"):]
+            return super()._strip_protocol(path)
+
+        def _open(self, path, mode="rb", **kw):
+            if mode != "rb":
+                return super()._open(path, mode=mode, **kw)
+            path = self._strip_protocol(path)
+            if path not in self.store:
+                raise FileNotFoundError(path)
+            return io.BytesIO(self.store[path].getvalue())
+
+    if "rawio" not in fsspec.registry:
+        fsspec.register_implementation("rawio", RawIOFileSystem, clobber=True)
+
+
 def pixels(level="1.5", n=5, p=3, rpc=2, protocol="file", seed=0):
     """bit-exact comparison of the loaded image with the samples written into the file (incl. NaN payloads, inf, -0.0, 0, 65535)"""
     import fsspec
@@ -490,7 +529,14 @@ def pixels(level="1.5", n=5, p=3, rpc=2, protocol="file", seed=0):
     root = tempfile.mkdtemp(prefix="vpix_")
     os.environ["XDG_CACHE_HOME"] = os.path.join(root, "_xdg")
     try:
-        if protocol == "memory":
+        if protocol == "rawio":
+            # a custom filesystem whose binary files are plain io.BytesIO objects (no fsspec extras such as `.size`), bucket-style root
+            _register_rawio()
+            fs = fsspec.filesystem("rawio")
+            base = f"/vpix_{os.path.basename(root)}"
+            synth.product(lambda nm, b: fs.pipe_file(f"{base}/{nm}", b), level, n=n, p=p, pols=("HH",), datas={name: data}, image_kw=nonmonotonic(n))
+            url = f"rawio://{base}"
+        elif protocol == "memory":
             fs = fsspec.filesystem("memory")
             base = f"/vpix_{os.path.basename(root)}"
             synth.product(lambda nm, b: fs.pipe_file(f"{base}/{nm}", b), level, n=n, p=p, pols=("HH",), datas={name: data}, image_kw=nonmonotonic(n))
